@@ -584,6 +584,17 @@ FIND_PACKET:
 			}
 		}
 	}
+	// The capture length decides how much is allocated and read: it must lie
+	// within the block, the original length and the interface's snap length.
+	if r.ci.CaptureLength < 0 || uint32(r.ci.CaptureLength) > r.currentBlock.length {
+		return fmt.Errorf("capture length %d exceeds block length", r.ci.CaptureLength)
+	}
+	if r.ci.CaptureLength > r.ci.Length {
+		return fmt.Errorf("capture length exceeds original packet length: %d > %d", r.ci.CaptureLength, r.ci.Length)
+	}
+	if snap := r.ifaces[r.ci.InterfaceIndex].SnapLength; snap != 0 && uint32(r.ci.CaptureLength) > snap {
+		return fmt.Errorf("capture length exceeds snap length: %d > %d", r.ci.CaptureLength, snap)
+	}
 	if !r.options.WantMixedLinkType {
 		if r.ifaces[r.ci.InterfaceIndex].LinkType != r.linkType {
 			if err := r.discard(int(r.currentBlock.length)); err != nil {
